@@ -456,7 +456,7 @@ pub const QUERY_DOCS: [&str; 3] = [
     "<r/>",
 ];
 
-pub const QUERIES: [&str; 55] = [
+pub const QUERIES: [&str; 58] = [
     "//c | //a", "//a | //c", "//e | //b | //a", "(//d | //a)[1]", "//b/* | //b", "//@y | //@x", "//a | //a", "/r/* | /r/b/*",
     "//d/preceding::* | //e", "//e/ancestor::* | //a", "//c/.. | //a/..", "//*/.. | //b/c",
     "$x", "/r/@x/..", "/..", "parent::node()", "/r/@x/parent::node()", "//processing-instruction('p')", "id('a')", "/r/a/..",
@@ -465,6 +465,7 @@ pub const QUERIES: [&str; 55] = [
     "/r/namespace::*[/r]", "//namespace::*[//a]", "/r/namespace::*[/]", "//namespace::*/..", "/r/namespace::*[count(/*) = 1]", "//*/namespace::*[(/r)[1]]",
     "(//d)/preceding-sibling::*", "(//e)/ancestor::*", "(//e)/preceding::*", "(//c)/ancestor-or-self::*", "((//e)/ancestor::*)[last()]", "(//d)/preceding-sibling::*[1]",
     "/r/a[id('x')]", "//b/id('x')", "count(/r/*[id(.)])",
+    "//c | //zz | //a", "//e | //nothing | //a | //b", "(//d | //zz | //a)[1]",
     "(//*)[nosuch(1)]", "(/r/*)[q:x]", "/r/b[c[q:x]]", "/r/*[1][q:x]", "//b/*[last()][zz:a]", "count(//*[q:x])", "/r/*[$v]",
 ];
 
